@@ -23,37 +23,40 @@ def run(tier):
     ck.cov["rule"] = "case = (behaviour of the copy machine, sample model); every step is executed and judged; distinct = distinct (behaviour, model)"
     exe = vlib.build("asan")
     wd = vlib.workdir("c11")
-    depth = 2 if tier == "quick" else 3
-    cfg = os.path.join(wd, "mc.cfg")
-    open(cfg, "w").write("SPECIFICATION Spec\nCONSTANTS Depth = %d\n Pre = 1\n Export = TRUE\nINVARIANT CopyEqual\nINVARIANT Emit\nCHECK_DEADLOCK FALSE\n" % depth)
-    hists = os.path.join(wd, "hists.ndjson")
-    r = vlib.tlc("NifCopy", cfg, workers=8, timeout=3000, export_to=hists, tag="c11-mc", heap="8g")
-    ck.add_tlc("NifCopy(Depth=%d)" % depth, r, "interleavings of edits, saves and destructions after a copy")
-    if r.rc != 0:
-        raise vlib.InfraError("NifCopy: invariant %s violated in the model" % r.violated)
-    files = FILES if tier == "thorough" else FILES[:4]
-    tr = os.path.join(wd, "run.ndjson")
-    rc, out, err = vlib.run_harness(exe, ["c11-run", hists, tr, ",".join(files)], timeout=7000)
-    if rc != 0:
-        raise vlib.InfraError("c11-run failed: " + err[-1500:])
-    ck.cov["runs"] = json.loads(out.strip().splitlines()[-1])
-    rr, viols, n = vlib.validate_trace("NifCopyTrace", tr, tag="c11", timeout=6000)
-    ck.add_tlc("NifCopyTrace", rr, "CopyEqual / Frame / NoForeign on recorded steps")
-    ck.cov["traces_validated_against_impl"] += ck.cov["runs"]["runs"]
-    ck.cov["evaluations"] += n
-    ck._distinct.update(("b%d" % i).encode() for i in range(ck.cov["runs"]["runs"]))
-    if viols:
-        lines = open(tr).readlines()
-        seen = set()
-        for v in viols:
-            ev = json.loads(lines[v["viol"] - 1])
-            act = ev.get("act", {})
-            key = (ev.get("file"), act.get("op"), act.get("edit"), act.get("kind"), tuple(sorted(v["clauses"])), ev.get("why"))
-            if key in seen:
-                continue
-            seen.add(key)
-            ck.reject({"check": "C11", "file": ev.get("file"), "op": act.get("op"), "edit": act.get("edit"), "clauses": sorted(v["clauses"])},
-                      {"clauses": v["clauses"], "event": ev}, replay={"event": ev})
+    # thorough: every behaviour of depth 2 on all models, and of depth 3 on the model whose shapes cache a pointer into a
+    # separate geometry block (about 21 000 behaviours under ASan)
+    passes = [(2, FILES[:4])] if tier == "quick" else [(2, FILES), (3, FILES[:1])]
+    for depth, files in passes:
+        cfg = os.path.join(wd, "mc.cfg")
+        open(cfg, "w").write("SPECIFICATION Spec\nCONSTANTS Depth = %d\n Pre = 1\n Export = TRUE\nINVARIANT CopyEqual\nINVARIANT Emit\nCHECK_DEADLOCK FALSE\n" % depth)
+        hists = os.path.join(wd, "hists.ndjson")
+        r = vlib.tlc("NifCopy", cfg, workers=8, timeout=3000, export_to=hists, tag="c11-mc", heap="8g")
+        ck.add_tlc("NifCopy(Depth=%d)" % depth, r, "interleavings of edits, saves and destructions after a copy")
+        if r.rc != 0:
+            raise vlib.InfraError("NifCopy: invariant %s violated in the model" % r.violated)
+        tr = os.path.join(wd, "run.ndjson")
+        rc, out, err = vlib.run_harness(exe, ["c11-run", hists, tr, ",".join(files)], timeout=7000)
+        if rc != 0:
+            raise vlib.InfraError("c11-run failed: " + err[-1500:])
+        ck.cov["runs"] = json.loads(out.strip().splitlines()[-1])
+        ck.cov.setdefault("passes", []).append({"depth": depth, "models": files, **ck.cov["runs"]})
+        rr, viols, n = vlib.validate_trace("NifCopyTrace", tr, tag="c11", timeout=6000)
+        ck.add_tlc("NifCopyTrace", rr, "CopyEqual / Frame / NoForeign on recorded steps")
+        ck.cov["traces_validated_against_impl"] += ck.cov["runs"]["runs"]
+        ck.cov["evaluations"] += n
+        ck._distinct.update(("b%d:%d" % (depth, i)).encode() for i in range(ck.cov["runs"]["runs"]))
+        if viols:
+            lines = open(tr).readlines()
+            seen = set()
+            for v in viols:
+                ev = json.loads(lines[v["viol"] - 1])
+                act = ev.get("act", {})
+                key = (ev.get("file"), act.get("op"), act.get("edit"), act.get("kind"), tuple(sorted(v["clauses"])), ev.get("why"))
+                if key in seen:
+                    continue
+                seen.add(key)
+                ck.reject({"check": "C11", "file": ev.get("file"), "op": act.get("op"), "edit": act.get("edit"), "clauses": sorted(v["clauses"])},
+                          {"clauses": v["clauses"], "event": ev}, replay={"event": ev})
     with open(hists) as f:
         for i, line in enumerate(f):
             if i == r.exported // 3:
